@@ -17,6 +17,7 @@ import (
 	"github.com/libp2p/go-libp2p/p2p/host/eventbus"
 
 	ipfslog "berty.tech/go-ipfs-log"
+	"berty.tech/go-orbit-db/stores/operation"
 	"berty.tech/weshnet/v2/internal/verifkit"
 	"berty.tech/weshnet/v2/internal/verifsched"
 	"berty.tech/weshnet/v2/pkg/protocoltypes"
@@ -119,6 +120,9 @@ func (s c08Step) String() string {
 	}
 	if s.kind == "meta" {
 		return fmt.Sprintf("announce(s%d)", s.sender)
+	}
+	if s.kind == "inject" {
+		return fmt.Sprintf("msg-alone(s%d#%d)", s.sender, s.upto)
 	}
 	return fmt.Sprintf("msgs(s%d..%d)", s.sender, s.upto)
 }
@@ -223,6 +227,16 @@ func c08Run(ctx context.Context, w *vWorld, account *vReplica, mat *c08Material,
 		} else if st.kind == "meta" {
 			if err := vDeliver(ctx, gc.MetadataStore(), snd.meta[len(snd.meta)-1:]); err != nil {
 				return nil, err
+			}
+		} else if st.kind == "inject" {
+			// ONE message reaches the receiver's log without the sender's earlier ones (replication hands over the newest
+			// entries of a long backlog first; here the sealed envelope is written as an entry of its own)
+			op, err := operation.ParseOperation(snd.msgs[st.upto-1].entry)
+			if err != nil {
+				return nil, err
+			}
+			if _, err := gc.MessageStore().AddOperation(ctx, operation.NewOperation(nil, "ADD", op.GetValue()), nil); err != nil {
+				return nil, fmt.Errorf("inject: %w", err)
 			}
 		} else {
 			if err := vDeliver(ctx, gc.MessageStore(), []ipfslog.Entry{snd.msgs[st.upto-1].entry}); err != nil {
@@ -346,9 +360,12 @@ func c08Judge(rep *verifkit.Report, mat *c08Material, steps []c08Step, plan stri
 	// which announcements / messages arrived
 	announced := map[int]bool{}
 	arrivedUpto := map[int]int{}
+	arrivedAlone := map[[2]int]bool{}
 	for _, s := range steps {
 		if s.kind == "meta" || s.kind == "register" {
 			announced[s.sender] = true
+		} else if s.kind == "inject" {
+			arrivedAlone[[2]int{s.sender, s.upto - 1}] = true
 		} else if s.upto > arrivedUpto[s.sender] {
 			arrivedUpto[s.sender] = s.upto
 		}
@@ -368,7 +385,7 @@ func c08Judge(rep *verifkit.Report, mat *c08Material, steps []c08Step, plan stri
 	for si, snd := range mat.senders {
 		wantParked := 0
 		for i, m := range snd.msgs {
-			if i >= arrivedUpto[si] {
+			if i >= arrivedUpto[si] && !arrivedAlone[[2]int{si, i}] {
 				continue // not delivered to the receiver
 			}
 			dec := m.decryptable && announced[si]
@@ -480,6 +497,16 @@ func TestVerifC08(t *testing.T) {
 		{"burst-130-unopenable-then-3", 1, 130, 3, func(m *c08Material) []c08Step {
 			return []c08Step{{"msgs", 0, all(0, m)}, {"settle", 0, 0}, {"meta", 0, 0}}
 		}, false, 0, false},
+		// the key is known, the receiver's window is 3 wide, and message 7 arrives ALONE first; messages 1..6 then arrive one
+		// at a time, the pipeline settling in between: 7 fails every time it is tried again until the window reaches it,
+		// and must come out then
+		{"far-ahead-message-first-then-singly", 1, 0, 8, func(m *c08Material) []c08Step {
+			st := []c08Step{{"meta", 0, 0}, {"settle", 0, 0}, {"inject", 0, 7}, {"settle", 0, 0}}
+			for k := 1; k <= 6; k++ {
+				st = append(st, c08Step{"inject", 0, k}, c08Step{"settle", 0, 0})
+			}
+			return st
+		}, false, 3, false},
 	}
 	if verifkit.Thorough() {
 		scens = append(scens,
@@ -534,7 +561,7 @@ func TestVerifC08(t *testing.T) {
 		}
 		verifsched.MergeProfile(prof)
 		rep.Distinct(sc.name + "/off")
-		burst := strings.HasPrefix(sc.name, "burst-") // 130 messages per run: a handful of runs only
+		burst := strings.HasPrefix(sc.name, "burst-") || strings.HasPrefix(sc.name, "far-ahead-") // long runs (130 messages, or a settle after every arrival): a handful of runs only
 		for s := 0; s < 4 && !(burst && s >= 1); s++ {
 			s := s
 			runOnce(fmt.Sprintf("profile-jitter(%d)", s), func() { verifsched.SetJitter(uint64(8000+s), 400, 300*time.Microsecond) })
@@ -578,7 +605,7 @@ func TestVerifC08(t *testing.T) {
 			}
 			kept = thin
 		}
-		if strings.HasPrefix(sc.name, "burst-") {
+		if burst {
 			kept = nil
 		}
 		for _, h := range kept {
